@@ -4,7 +4,7 @@ From Coq.Strings Require Import Byte.
 Import ListNotations.
 From GA.Base Require Import Bytes Case Align CorrBase.
 From GA.Gen Require Import Alpha IOConst.
-From GA.Model Require Fasta.
+From GA.Model Require Fasta Phylip.
 From GA.Model Require Import Translate.
 
 Definition brows := list (bs * bs).
@@ -28,6 +28,13 @@ Definition model_ok (c : case) : bool :=
     | Fasta.ROk rows => is_class c "Ok" && rows_eqb (unrows (k_out c)) rows
     | Fasta.RErr => is_class c "Err"
     end
+  else if is_cfg c "phylip" || is_cfg c "phylip-oneline" || is_cfg c "phylip-noblock" || is_cfg c "phylip-strict" then
+    (* the Phylip writer is modelled for its four layouts; the reference reading of the written bytes must
+       be what the code's parser returned (relaxed names only: strict names are cut to 10 characters) *)
+    let ly := Phylip.Build_layout (is_cfg c "phylip-strict") (is_cfg c "phylip-oneline") (is_cfg c "phylip-noblock") in
+    bytes_eqb (unbs (k_written c)) (Phylip.write PHYLIP_LINE PHYLIP_BLOCK ly rs) &&
+    (is_cfg c "phylip-strict" || negb (is_class c "Ok") ||
+     rows_eqb (unrows (k_out c)) (Phylip.read (length rs) (unbs (k_written c))))
   else true.
 
 (* ---- SPEC: representable alignments round-trip ---------------------------------------------- *)
